@@ -118,6 +118,8 @@ def gen_cases(rng, tier):
             size *= s
         mats = [_matrix(rng, dtype, flavour) for _ in range(size)]
         a1 = rng.choice(ALPHAS + [round(rng.uniform(0.002, 0.9), 4)])
+        if k % 9 == 4:   # very high confidence levels: 1 - alpha/2 is not representable / rounds to 1.0
+            a1 = rng.choice([1e-9, 1e-12, 1e-15, 1e-17, 1e-30, 1e-300])
         a2 = rng.choice([a for a in ALPHAS if a > a1 * 1.01 + 1e-9] + [min(0.995, a1 * 1.5 + 0.001)])
         cases.append({"dtype": dtype, "shape": shape, "mats": mats, "alphas": [enc(a1), enc(a2)]})
     return cases
